@@ -246,11 +246,26 @@ def run_cases(draw):
             prec.append(q if q <= (b[1] - b[0]) / 4 else None)
         if not any(prec):
             prec = None
-    return {"alg": draw(st.sampled_from(["NSGAII", "EpsMOEA", "OMOPSO", "SMPSO", "PSOGA"])), "boxes": boxes, "m": m,
-            "N": draw(st.integers(2, 8)), "G": draw(st.integers(1, 4)), "seed": draw(st.integers(0, 2 ** 31)),
+    collapse = draw(st.integers(0, 3)) == 0
+    periodic = draw(st.integers(0, 2)) == 0
+    if collapse:
+        boxes = boxes[:2]
+    if periodic and not collapse:
+        boxes = (boxes * 4)[:4]          # many re-sampled coordinates per run
+        prec = None
+    if prec is not None:
+        prec = prec[:len(boxes)]
+        if not any(prec):
+            prec = None
+    return {"alg": draw(st.sampled_from(["EpsMOEA", "EpsMOEA", "NSGAII"])) if collapse else
+            draw(st.sampled_from(["NSGAII", "EpsMOEA", "OMOPSO", "SMPSO", "PSOGA"])), "boxes": boxes, "m": m,
+            # the objective fails on the 2nd and 3rd of every four calls: many designs fail twice in a row
+            "periodic": periodic and not collapse,
+            "N": 8 if (periodic and not collapse) else draw(st.integers(2, 8)),
+            "G": 4 if (periodic and not collapse) else draw(st.integers(1, 4)), "seed": draw(st.integers(0, 2 ** 31)),
             "fails": fails if draw(st.booleans()) else [], "prec": prec,
             # a collapsed population: tiny N, many generations, low (valid) mutation probability, optimum in a corner
-            "collapse": draw(st.integers(0, 4)) == 0,
+            "collapse": collapse,
             "pm": draw(st.sampled_from([0.01, 0.02, 0.05, 0.2]))}
 
 
@@ -276,7 +291,7 @@ def check_run(case):
         k = calls[0]
         calls[0] += 1
         seen.append(list(ind.vector))
-        if k in fails:
+        if (k % 4 in (1, 2)) if case.get("periodic") else (k in fails):
             raise RuntimeError("injected transient failure")
         x = [(float(v) - b[0]) / (b[1] - b[0]) for v, b in zip(ind.vector, boxes)]
         if case.get("collapse"):
@@ -317,11 +332,11 @@ def check_run(case):
                 raise Violation("runs", "%s:out-of-box" % case["alg"], "%s N=%d G=%d evaluated %r outside %r" % (
                     case["alg"], case["N"], case["G"], v, boxes))
     return {"nt": case["G"] >= 2, "classes": [case["alg"], "failures" if fails else "clean"] + (
-        ["collapsed-population"] if case.get("collapse") else [])}
+        ["collapsed-population"] if case.get("collapse") else []) + (["periodic-failures"] if case.get("periodic") else [])}
 
 
 CLAUSES = [
     Clause("operators", op_cases(), check_operator, quick=12000, thorough=40000, quick_shards=4),
     Clause("generators", gen_cases(), check_generator, quick=1500, thorough=10000, quick_shards=2),
-    Clause("runs", run_cases(), check_run, quick=60, thorough=600, quick_shards=4),
+    Clause("runs", run_cases(), check_run, quick=180, thorough=900, quick_shards=4),
 ]
